@@ -544,6 +544,7 @@ def _bracket_recorder(entity, body_event="child.run", continue_flag=False):
             g["cached_last"] = (g.get("phase", "before"), "final" if final else
                                 ("untested" if isinstance(v, EnumVal) else "computed"))
             g["cache_then_child"] = False
+            g["cached_const"] = v.name if isinstance(v, EnumVal) else None
         elif k == "loopexit":
             if g.get("phase") == "loop" or ev[2] in ("run_items", "scenarios"):
                 g["phase"] = "after"
@@ -673,7 +674,8 @@ def explore_container_run(ix, cls, thorough=False, mutate=None):
                            ("none" if so.fields.get("background") is None else "undecided")),
             "scope": g.get("scope"), "scope_err": g.get("scope.err"),
             "n_run": g.get("n_run", 0), "cached": so.fields.get("_cached_status"), "cached_last": g.get("cached_last"),
-            "cache_then_child": g.get("cache_then_child", False),
+            "cache_then_child": g.get("cache_then_child", False), "cached_const": g.get("cached_const"),
+            "n_children": g.get("#n:run_items", g.get("#iter:run_items")),
             "hook_failed": so.fields.get("hook_failed"),
             "should_skip": so.fields.get("should_skip"), "skipped_midrun": g.get("skipped_midrun", False) or g.get("hook_skipped_element", False),
             "should_skip_entry": g.get("should_skip_entry"),
